@@ -393,6 +393,24 @@ func verifTempFile(dir, pattern string) (*verifFile, error) {
 	return verifWrap(ioutil.TempFile(dir, pattern))
 }
 
+// verifWriteFile is os.WriteFile as the standard library implements it: open
+// with O_TRUNC, write, close - three steps, not atomic.
+func verifWriteFile(name string, data []byte, perm os.FileMode) error {
+	f, err := verifOpenFile(name, os.O_WRONLY|os.O_CREATE|os.O_TRUNC, perm)
+	if err != nil {
+		return err
+	}
+	_, err = f.Write(data)
+	if err1 := f.Close(); err1 != nil && err == nil {
+		err = err1
+	}
+	return err
+}
+
+func verifCreate(name string) (*verifFile, error) {
+	return verifOpenFile(name, os.O_RDWR|os.O_CREATE|os.O_TRUNC, 0666)
+}
+
 func verifReadDir(dir string) ([]os.FileInfo, error) {
 	verifStep(true, "readdir")
 	return ioutil.ReadDir(dir)
